@@ -100,7 +100,7 @@ file (if any) is good, every history of `processEntry` calls and every per-attem
 script: the final path holds only bytes with the manifest's digest and size.  (Histories are
 prefix-closed, so this covers every intermediate state after whole calls; `C25_final_correct_within`
 covers the states inside a call.) -/
-theorem C25_final_correct (f : Facts) (hpo : f.promoteAfterVerdict = true) (content : Bytes) (maxA : Nat) (r0 : Rep) (c0 : Counters)
+theorem C25_final_correct (f : Facts) (hpo : f.orderOK = true) (content : Bytes) (maxA : Nat) (r0 : Rep) (c0 : Counters)
     (hist : List (List (List Outcome))) (h0 : GoodFinal H content r0) :
     ∀ b, (runHist H f content maxA (r0, c0) hist).1.final = some b →
       H b = H content ∧ b.length = content.length := by
@@ -108,7 +108,7 @@ theorem C25_final_correct (f : Facts) (hpo : f.promoteAfterVerdict = true) (cont
     (fun p _ => scriptIn_true p) ⟨h0, fun _ => trivial⟩
   exact this.1
 
-theorem C25_final_correct_within (f : Facts) (hpo : f.promoteAfterVerdict = true) (content : Bytes) (maxA : Nat) (s : PState)
+theorem C25_final_correct_within (f : Facts) (hpo : f.orderOK = true) (content : Bytes) (maxA : Nat) (s : PState)
     (script : List (List Outcome)) (h0 : GoodFinal H content s.rep) :
     ∀ b, (runProc H f content maxA s script).rep.final = some b →
       H b = H content ∧ b.length = content.length := by
@@ -117,7 +117,7 @@ theorem C25_final_correct_within (f : Facts) (hpo : f.promoteAfterVerdict = true
 
 /-- **C25_final_exact.** With a collision-free digest the final path holds exactly the manifest
 file's bytes. -/
-theorem C25_final_exact (hcf : CollisionFree H) (f : Facts) (hpo : f.promoteAfterVerdict = true) (content : Bytes) (maxA : Nat) (r0 : Rep)
+theorem C25_final_exact (hcf : CollisionFree H) (f : Facts) (hpo : f.orderOK = true) (content : Bytes) (maxA : Nat) (r0 : Rep)
     (c0 : Counters) (hist : List (List (List Outcome))) (h0 : GoodFinal H content r0) :
     ∀ b, (runHist H f content maxA (r0, c0) hist).1.final = some b → b = content :=
   fun b hb => hcf _ _ (C25_final_correct H f hpo content maxA r0 c0 hist h0 b hb).1
@@ -128,7 +128,7 @@ of a `pullOnce` has finished (where `WriteReader`/`AppendReader` return and wher
 only after the clean EOF that follows `Fetch`'s digest verdict (`promoteAfterVerdict`).  This is the
 obligation `C25_promote_after_verdict` discharges for the current source; without it
 `C25_early_promote_witness` shows unverified bytes at the final path. -/
-theorem C25_final_correct_during (f : Facts) (hpo : f.promoteAfterVerdict = true) (content : Bytes)
+theorem C25_final_correct_during (f : Facts) (hpo : f.orderOK = true) (content : Bytes)
     (resume : Bool) (r : Rep) (o : Outcome) (hr : r.final = none) :
     ∀ b, (pullOnce H f content resume r o).mid.final = some b →
       H b = H content ∧ b.length = content.length :=
@@ -139,7 +139,7 @@ theorem C25_final_correct_during (f : Facts) (hpo : f.promoteAfterVerdict = true
 /-- **C25_counts_step.** The exact step-level statement, for every combination of code facts: an
 attempt that counts the file (skipped-local or pulled) ends with a complete final file — unless the
 presence check looked at a *phantom* (final file absent, yet "present").  -/
-theorem C25_counts_step (f : Facts) (hpo : f.promoteAfterVerdict = true) (content : Bytes) (maxA : Nat) (s : PState) (peers : List Outcome)
+theorem C25_counts_step (f : Facts) (hpo : f.orderOK = true) (content : Bytes) (maxA : Nat) (s : PState) (peers : List Outcome)
     (hg : GoodFinal H content s.rep) (hrun : s.st = .running) (hnp : ¬ Phantom f content s.rep)
     (hc : (attemptStep H f content maxA s peers).st = .skipped ∨
           (attemptStep H f content maxA s peers).st = .pulled) :
@@ -162,7 +162,7 @@ theorem C25_counters_status (f : Facts) (content : Bytes) (maxA : Nat) (s : PSta
 without the `.part` fallback) or a `Delete` that removes `.part`, then after ANY fault history, any
 `processEntry` call that ends counted (skipped-local / pulled) leaves the file complete at its
 final path. -/
-theorem C25_counts (f : Facts) (hpo : f.promoteAfterVerdict = true) (hrep : f.repaired = true) (content : Bytes) (maxA : Nat)
+theorem C25_counts (f : Facts) (hpo : f.orderOK = true) (hrep : f.repaired = true) (content : Bytes) (maxA : Nat)
     (r0 : Rep) (c0 : Counters) (hist : List (List (List Outcome))) (script : List (List Outcome))
     (h0 : GoodFinal H content r0) (hs : StartOK f content r0) :
     let rc := runHist H f content maxA (r0, c0) hist
@@ -189,7 +189,7 @@ file is non-empty and a staging file present at the start is a proper prefix of 
 counted call leaves the file complete.
 Full statement (= `C25_counts` without the side condition on `f`) is refuted by
 `C25_counts_witness`. -/
-theorem C25_counts_partial (f : Facts) (hpo : f.promoteAfterVerdict = true) (content : Bytes) (maxA : Nat)
+theorem C25_counts_partial (f : Facts) (hpo : f.orderOK = true) (content : Bytes) (maxA : Nat)
     (r0 : Rep) (c0 : Counters) (hist : List (List (List Outcome))) (script : List (List Outcome))
     (h0 : GoodFinal H content r0) (hne : content ≠ []) (hq : r0.final = none → PartPrefix content r0)
     (hclean : histClean hist = true) (hclean' : scriptClean script = true) :
@@ -210,7 +210,7 @@ theorem C25_counts_partial (f : Facts) (hpo : f.promoteAfterVerdict = true) (con
 /-! ## (c) convergence once the faults stop -/
 
 /-- a fresh `processEntry` call whose first candidate peer is healthy, from a non-phantom state -/
-theorem fresh_ok_call (f : Facts) (hpo : f.promoteAfterVerdict = true) (content : Bytes) (maxA : Nat) (r : Rep) (c : Counters)
+theorem fresh_ok_call (f : Facts) (hpo : f.orderOK = true) (content : Bytes) (maxA : Nat) (r : Rep) (c : Counters)
     (rest : List Outcome) (more : List (List Outcome))
     (hg : GoodFinal H content r) (hnp : ¬ Phantom f content r) :
     let s := runProc H f content maxA (PState.start r c) ((.ok :: rest) :: more)
@@ -237,7 +237,7 @@ theorem fresh_ok_call (f : Facts) (hpo : f.promoteAfterVerdict = true) (content 
 call for the entry (FSM callback / catch-up re-enqueue) in which the first candidate peer is healthy
 ends counted, with the file complete at its final path — and, for a collision-free digest, with
 exactly the manifest file's bytes. -/
-theorem C25_converges (f : Facts) (hpo : f.promoteAfterVerdict = true) (hrep : f.repaired = true) (content : Bytes) (maxA : Nat)
+theorem C25_converges (f : Facts) (hpo : f.orderOK = true) (hrep : f.repaired = true) (content : Bytes) (maxA : Nat)
     (r0 : Rep) (c0 : Counters) (hist : List (List (List Outcome)))
     (rest : List Outcome) (more : List (List Outcome))
     (h0 : GoodFinal H content r0) (hs : StartOK f content r0) :
@@ -260,7 +260,7 @@ theorem C25_converges (f : Facts) (hpo : f.promoteAfterVerdict = true) (hrep : f
 
 /-- **C25_converges_partial.** Every combination of code facts, same carve-out as
 `C25_counts_partial`.  Full statement refuted by `C25_converges_witness`. -/
-theorem C25_converges_partial (f : Facts) (hpo : f.promoteAfterVerdict = true) (content : Bytes) (maxA : Nat)
+theorem C25_converges_partial (f : Facts) (hpo : f.orderOK = true) (content : Bytes) (maxA : Nat)
     (r0 : Rep) (c0 : Counters) (hist : List (List (List Outcome)))
     (rest : List Outcome) (more : List (List Outcome))
     (h0 : GoodFinal H content r0) (hne : content ≠ []) (hq : r0.final = none → PartPrefix content r0)
